@@ -43,6 +43,14 @@ def observe(state, n, hb, backend):
     # dimensionless: photon-number parity of every mode subset
     import itertools
     out["parity"] = [float(np.real(state.parity_expectation(list(c)))) for r in range(1, n + 1) for c in itertools.combinations(range(n), r)]
+    # every other dimensionless scalar the state object offers (whole register: multi-mode normalisations)
+    for meth, args in (("purity", ()), ("fidelity_vacuum", ()), ("fidelity_coherent", ([0.1 + 0.2j] * n,)), ("trace", ())):
+        f = getattr(state, meth, None)
+        if callable(f):
+            try:
+                out[meth] = [complex(f(*args))]
+            except (NotImplementedError, TypeError):
+                pass
     return out
 
 
